@@ -85,7 +85,7 @@ CLAIMED = {
             "(real arithmetic) and in-memory __update_delayed (three nested loops, ghost witness map)",
             "Proof that a message with a due time is placed only in the delayed container, that NORMAL consumption reads "
             "only the waiting queue, and that a Redis score can only be passed by a consumer clock at most 1 ms before the "
-            "due time (after fix F05). __update_delayed is proved too (nothing moves before its due time, everything overdue moves, an entry leaves the delayed map exactly when its messages were moved); only its four 'keeps the single-copy invariant' clauses, which serve C14, are left to the bounded stand-in.",
+            "due time (after fix F05). __update_delayed is proved too (nothing moves before its due time, everything overdue moves, an entry leaves the delayed map exactly when its messages were moved); it also keeps the single-copy invariant used by C14. The former bounded stand-in runs as an additional native check only.",
             "Floats as exact reals; latency/liveness clauses not decided; RabbitMQ TTL is server side."),
     "C11": ("deductive verification of Router.actor / include_router (maps of sets, quantified index invariant) and of the "
             "in-memory consumer's topic filter",
